@@ -30,15 +30,16 @@ Theorem C22_only_generator_and_round :
 Proof. exact mf_pay_fees_guards. Qed.
 Print Assumptions C22_only_generator_and_round.
 
-(* the whole payment, for every float rounding with charge <= value (C10's premise): no panic
-   when at least one sharder is rewarded; the four amounts handed to the miner side and the
-   sharder side add up to fees + block reward; the sharder amounts add up to the sharder side;
-   what is credited to all stake pools together never exceeds fees + block reward (it is less
-   only where C10 says a pool is not eligible: killed, under-staked, no selected stake) *)
+(* the whole payment, for every (non-negative) float rounding and any number of rewarded
+   sharders, zero included: no panic; the four amounts handed to the miner side and the sharder
+   side add up to fees + block reward; the sharder amounts add up to the sharder side; what is
+   credited to all stake pools together never exceeds fees + block reward (it is less only
+   where C10 says a pool gets nothing: killed, under-staked; or when there is no rewarded
+   sharder / miner to credit) *)
 Theorem C22_pay_fees_exact_and_bounded :
   forall (chargef : f64 -> Z -> option Z) (sharef : Z -> Z -> Z -> option Z) (splitf : f64 -> Z -> option Z),
   (forall a b c r, sharef a b c = Some r -> 0 <= r) ->
-  (forall r x c, chargef r x = Some c -> 0 <= c <= x) ->
+  (forall r x c, chargef r x = Some c -> 0 <= c) ->
   (forall r y c, splitf r y = Some c -> 0 <= c) ->
   forall gn bk client in_round miner live sharders md sd fees br,
   Forall (fun f => 0 <= f) (bk_fees bk) ->
@@ -47,14 +48,13 @@ Theorem C22_pay_fees_exact_and_bounded :
   (forall m, miner = Some m -> mf_node_ok (2 * (fees + br)) (gn_nmd gn) m md) ->
   length sd = length sharders ->
   Forall2 (mf_node_ok (2 * (fees + br)) (gn_nsd gn)) sharders sd ->
-  (live = true -> sharders <> []) ->
   mf_pay_fees chargef sharef splitf gn bk client in_round miner live sharders md sd <> SpPanic /\
   forall miner' sharders',
     mf_pay_fees chargef sharef splitf gn bk client in_round miner live sharders md sd = SpOk (miner', sharders') ->
     exists mr sr mfe sfe,
       mf_split splitf (gn_share_ratio gn) br = Some (mr, sr) /\ mf_split splitf (gn_share_ratio gn) fees = Some (mfe, sfe) /\
       mr + sr + mfe + sfe = fees + br /\
-      (live = true -> sp_sum (mf_shares sfe (length sharders)) = sfe /\ sp_sum (mf_shares sr (length sharders)) = sr) /\
+      (sharders <> [] -> sp_sum (mf_shares sfe (length sharders)) = sfe /\ sp_sum (mf_shares sr (length sharders)) = sr) /\
       mf_opt_total miner + mf_total sharders <= mf_opt_total miner' + mf_total sharders'
         <= mf_opt_total miner + mf_total sharders + fees + br /\
       map nd_id sharders' = map nd_id sharders.
